@@ -203,30 +203,36 @@ def label_may_be(lab, name):
 
 def reach_under(body, impossible, removed=()):
     """blocks reachable from entry when every edge satisfying one of the
-    `impossible` edge predicates is deleted (an assumption about the state)"""
+    `impossible` edge predicates is deleted (an assumption about the state).
+    Boolean temporaries assigned constants in match arms (`matches!`, `let b =
+    match ..`) are threaded: an edge of a later test of the temporary is dead
+    when no reachable arm stores that constant."""
     rem = set(body.dead_edges())
     for p in impossible:
         rem |= edges_where(body, p)
+    for _ in range(8):
+        r = body.reach([0], removed=removed, removed_edges=rem)
+        new = set()
+        for a in r:
+            br = body.branch(a)
+            if not br:
+                continue
+            c, tr = strip_not(br[0], True)
+            if c[0] != "phi":
+                continue
+            defs = body.defs().get(c[1], [])
+            if not defs or not all(d[0] == "=" and d[3]["k"] == "use" and "const" in d[3]["ops"][0] and d[3]["ops"][0]["const"].get("int") in (0, 1) for d in defs):
+                continue
+            vals = {d[3]["ops"][0]["const"]["int"] for d in defs if d[1] in r}
+            for lab, tb in br[1]:
+                if isinstance(lab, bool):
+                    v = lab if tr else (not lab)
+                    if (1 if v else 0) not in vals:
+                        new.add((a, tb))
+        if new <= rem:
+            break
+        rem |= new
     return body.reach([0], removed=removed, removed_edges=rem), rem
-
-
-def is_local_named(e, name):
-    return isinstance(e, tuple) and e[0] in ("var", "phi", "arg") and e[2] == name
-
-
-def agg_sites(body, pat):
-    """[(bb, stmt, expr)] for every assignment (to any place) of an aggregate
-    whose outermost or nested single-operand name matches pat"""
-    r = rx(pat)
-    out = []
-    for bb, i, s in body.assigns():
-        if s["rv"]["k"] != "agg":
-            continue
-        e = body.rv_expr(s["rv"], 6)
-        names, _ = agg_chain(e)
-        if any(r.search(n or "") for n in names):
-            out.append((bb, s, e))
-    return out
 
 
 def canon(e, depth=6):
@@ -291,4 +297,23 @@ def deep_conds(body, c, depth=3, _seen=None):
                 out.extend(deep_conds(body, e, depth - 1, _seen))
                 for g, lab, a in body.guards(d[1]):
                     out.extend(deep_conds(body, g, depth - 1, _seen))
+    return out
+
+
+def is_local_named(e, name):
+    return isinstance(e, tuple) and e[0] in ("var", "phi", "arg") and e[2] == name
+
+
+def agg_sites(body, pat):
+    """[(bb, stmt, expr)] for every assignment (to any place) of an aggregate
+    whose outermost or nested single-operand name matches pat"""
+    r = rx(pat)
+    out = []
+    for bb, i, s in body.assigns():
+        if s["rv"]["k"] != "agg":
+            continue
+        e = body.rv_expr(s["rv"], 6)
+        names, _ = agg_chain(e)
+        if any(r.search(n or "") for n in names):
+            out.append((bb, s, e))
     return out
